@@ -33,12 +33,16 @@ ASSUMPTIONS = ['in-tree mock git host; real git on a local bare remote',
                'git commands (placed between two commands, not inside one)']
 
 ACTIONS = ('new_branch', 'push_src', 'force_src')
+import re
+NET_RE = re.compile(r'^\s*git\s+(fetch|remote\s+update|ls-remote|clone)\b')
 
 
 class Placed(M.Monitor):
     def after_job(self, hist, res, step):
         if step.get('op') == 'rejected':
             hist.count('rejected_ref_runs')
+        if step.get('op') == 'placed' and 'cmd' in step:
+            hist.count('placed_before_network_command')
         if step.get('op') == 'placed':
             hist.count('placed_runs')
             seen_third = False
@@ -65,6 +69,7 @@ def monitors():
 def body_factory(tier, known):
     max_jobs = 3 if tier == 'quick' else 8
     max_rejects = 3 if tier == 'quick' else 100
+    max_net = 2 if tier == 'quick' else 100
 
     def body(data, hist):
         n = data.draw(st.integers(8, 26), label='nsteps')
@@ -103,6 +108,31 @@ def body_factory(tier, known):
                                             'push': k, 'action': {
                                                 'kind': 'new_tag',
                                                 'name': ver}})
+                        # the same actions placed before the other commands
+                        # that talk to the remote (mirror fetch, remote
+                        # update, ls-remote): the clone itself is a window
+                        net = [ci for ci, c in enumerate(info['cmds'])
+                               if NET_RE.match(c)]
+                        if len(net) > max_net:
+                            idx = data.draw(st.lists(
+                                st.integers(0, len(net) - 1),
+                                min_size=max_net, max_size=max_net,
+                                unique=True), label='net')
+                            net = [net[i] for i in sorted(idx)]
+                        for ci in net:
+                            for kind in ('push_src', 'force_src',
+                                         'new_branch'):
+                                act = {'kind': kind}
+                                if kind == 'new_branch':
+                                    act['name'] = 'feature/third-%d-c%d' % (
+                                        len(hist.steps), ci)
+                                elif prs:
+                                    act['pr'] = prs[data.draw(st.integers(
+                                        0, len(prs) - 1), label='npr')]
+                                else:
+                                    continue
+                                hist.apply({'op': 'placed', 'job': step,
+                                            'cmd': ci, 'action': act})
                         # the remote refuses one ref of the job (branch or
                         # tag protection): nothing foreign may be lost either
                         refs_ = sorted(set(info['moved']))
